@@ -25,7 +25,7 @@ COMPONENTS = {"real": ["py7zr writer/reader", "kernel tmpfs", "codec libraries"]
 def plan(tier):
     if tier == "thorough":
         return {"n": None, "budget_s": int(os.environ.get("VERIF_BUDGET_S", "900")), "case_timeout": 300}
-    return {"n": 700, "budget_s": 170, "case_timeout": 120}
+    return {"n": 4000, "budget_s": 170, "case_timeout": 120}
 
 
 def gen_case(rng: Rng, i: int, tier: str):
@@ -35,7 +35,7 @@ def gen_case(rng: Rng, i: int, tier: str):
 
     for attempt in range(20):
         t = tree.gen_tree(r, maxdepth=5, nmax=14, name_style=r.pick([None, "ascii", "bmp", "astral"]), links=True, block=32768,
-                          maxlen=65536 if r.chance(0.2) else 3000, deref_safe=deref)
+                          maxlen=65536 if r.chance(0.2) else 3000, deref_safe=deref, coincide=True)
         # write()/writeall() strip a leading drive prefix ('c:') from the archive name by design (see C16): a top-level
         # entry literally named 'c:x' is therefore outside what the round trip can promise when no arcname is given
         if not any(re.match("^[a-zA-Z]:", e["path"]) for e in t):
@@ -47,7 +47,10 @@ def gen_case(rng: Rng, i: int, tier: str):
         arcname = None if r.chance(0.7) else arcname
     return {"tree": t, "entry": entry, "pathform": pathform, "arcname": arcname, "deref": deref and entry == "writeall", "password": gen.gen_password(r) if r.chance(0.3) and entry == "writeall" else None,
             "umask": r.pick([0o022, 0o077, 0o000, 0o027, 0o177]), "cwd": r.pick(["parent", "elsewhere"]), "block": r.pick([4096, 32768, 1048576]), "chunk": r.pick([4096, 128000000]),
-            "unpack": r.chance(0.3), "rng": r.randrange(1 << 30)}
+            "unpack": r.chance(0.3), "rng": r.randrange(1 << 30),
+            # how the empty destination is named: absolute path argument, relative path argument, or no argument at all
+            # from inside it
+            "xdest": r.wpick([(3, "abs"), (2, "cwd"), (2, "rel")])}
 
 
 def run_case(case):
@@ -68,7 +71,8 @@ def run_case(case):
     archive = os.path.join(scratch, "a.7z")
     cwd0 = os.getcwd()
     um0 = os.umask(case["umask"])
-    cls = {"entry": case["entry"], "pathform": case["pathform"], "arcname": case["arcname"] is not None, "deref": case["deref"], "password": case["password"] is not None}
+    cls = {"entry": case["entry"], "pathform": case["pathform"], "arcname": case["arcname"] is not None, "deref": case["deref"], "password": case["password"] is not None,
+           "xdest": case.get("xdest", "abs")}
 
     def viol(oracle, site, detail, **extra):
         c = dict(cls)
@@ -109,11 +113,21 @@ def run_case(case):
             os.chdir(elsewhere if case["cwd"] == "elsewhere" else srcparent)
             try:
                 with fsjail.Jail(scratch, dest) as j:
+                    xdest = case.get("xdest", "abs")
+                    if xdest == "cwd":
+                        os.chdir(dest)
+                    elif xdest == "rel":
+                        os.chdir(os.path.dirname(dest))
                     if case["unpack"] and case["password"] is None:
-                        py7zr.unpack_7zarchive(archive, dest)
+                        py7zr.unpack_7zarchive(archive, os.path.basename(dest) if xdest == "rel" else "." if xdest == "cwd" else dest)
                     else:
                         with py7zr.SevenZipFile(archive, "r", password=case["password"]) as z:
-                            z.extractall(path=dest)
+                            if xdest == "cwd":
+                                z.extractall()
+                            elif xdest == "rel":
+                                z.extractall(path=os.path.basename(dest))
+                            else:
+                                z.extractall(path=dest)
             except Exception as e:
                 viol("extraction_failed", "extractall", "extracting the archive of the tree raised %r" % e, error=type(e).__name__)
                 return res
@@ -152,7 +166,7 @@ def run_case(case):
         shape = [kinds.count("dir"), kinds.count("file"), kinds.count("link"), sum(1 for e in case["tree"] if e["kind"] == "file" and e["content"]["len"] == 0),
                  max([e["path"].count("/") for e in case["tree"]] + [0])]
         res["sigs"].append(([shape, cls["arcname"], cls["deref"], case["entry"], case["pathform"], case["unpack"]], kinds.count("dir") >= 1 and kinds.count("file") >= 1))
-        res["classes"]["%s|%s|deref=%s" % (case["entry"], case["pathform"], case["deref"])] = 1
+        res["classes"]["%s|%s|deref=%s|dest=%s" % (case["entry"], case["pathform"], case["deref"], case.get("xdest", "abs"))] = 1
         res["probes"]["symlink_members"] = 1 if "link" in kinds else 0
         res["probes"]["dereferenced_links"] = 1 if case["deref"] and "link" in kinds else 0
         res["probes"]["empty_directories"] = 1 if any(e["kind"] == "dir" and not any(x["path"].startswith(e["path"] + "/") for x in case["tree"]) for e in case["tree"]) else 0
@@ -185,12 +199,12 @@ def shrink_candidates(case):
         for x in c["tree"]:
             if x["kind"] == "link":
                 tgt = posixpath.normpath(posixpath.join(posixpath.dirname(x["path"]), x["target"]))
-                if tgt not in paths and tgt not in ("", "."):
+                if tgt not in paths and tgt not in ("", ".") and tgt in {y["path"] for y in t}:
                     ok = False
         if ok and c["tree"]:
             yield c
-    for k, v in (("password", None), ("unpack", False), ("umask", 0o022), ("cwd", "parent"), ("block", 1048576), ("chunk", 128000000)):
-        if case[k] != v:
+    for k, v in (("password", None), ("unpack", False), ("umask", 0o022), ("cwd", "parent"), ("block", 1048576), ("chunk", 128000000), ("xdest", "abs")):
+        if case.get(k, v) != v:
             c = copy.deepcopy(case)
             c[k] = v
             yield c
